@@ -50,6 +50,7 @@ func cmdRace(args []string) {
 	workers := fs.Int("workers", 32, "goroutines")
 	rounds := fs.Int("rounds", 30, "rounds per goroutine")
 	nobj := fs.Int("objects", 40, "histories to build objects from")
+	cold := fs.Bool("cold", false, "no sequential pass first: the very first use of every code path happens concurrently")
 	fs.Parse(args)
 	r := rand.New(rand.NewSource(*seed))
 	var ops []raceOp
@@ -131,6 +132,47 @@ func cmdRace(args []string) {
 				return e.observe(x)
 			})
 		}
+	}
+	if *cold {
+		// first uses race with each other (lazy initialisation, caches filled on demand): every
+		// goroutine starts at the same moment on the same operations, results are compared afterwards
+		got := make([][]string, *workers)
+		start := make(chan struct{})
+		var wg sync.WaitGroup
+		for w := 0; w < *workers; w++ {
+			wg.Add(1)
+			w := w
+			got[w] = make([]string, len(ops))
+			go func() {
+				defer wg.Done()
+				<-start
+				for k := 0; k < len(ops); k++ {
+					i := (k + w*7) % len(ops)
+					got[w][i] = safeCall(ops[i].run)
+				}
+			}()
+		}
+		close(start)
+		wg.Wait()
+		mism := 0
+		first := ""
+		for i, op := range ops {
+			exp := safeCall(op.run)
+			for w := range got {
+				if got[w][i] != exp {
+					mism++
+					if first == "" {
+						first = fmt.Sprintf("%s: alone %q, concurrently (cold) %q", op.name, short(exp), short(got[w][i]))
+					}
+				}
+			}
+		}
+		fmt.Printf("race ops=%d calls=%d mismatches=%d\n", len(ops), len(ops)*(*workers), mism)
+		if mism > 0 {
+			fmt.Println("MISMATCH", first)
+			os.Exit(3)
+		}
+		return
 	}
 	// alone
 	expected := make([]string, len(ops))
